@@ -295,6 +295,38 @@ func runC04(c *run.Ctx) {
 			conform("<div>" + st + "t</" + el + "></div>")
 		}
 	}
+	// the shipped constructors hand out fresh policies: after one result was extended, a new one is still as strict
+	if c.Shard == 0 {
+		for _, ctor := range []string{"strict", "ugc"} {
+			first := spec.Build(spec.Spec{Base: ctor})
+			for _, call := range []C{els("b", "script", "form"), attrsGlob([]string{"onclick", "style", "href"}, ""), {Op: "AllowComments"}, attrsOn([]string{"href"}, "", "a"),
+				{Op: "AllowURLSchemes", Names: []string{"javascript", "data"}}, opt("AllowUnsafe", true), {Op: "AllowElementsContent", Names: []string{"script", "style", "iframe"}}} {
+				spec.Apply(first, call)
+			}
+			first.Sanitize(`<b onclick=x>t</b>`)
+			fresh := build(spec.Spec{Name: ctor, Base: ctor})
+			for _, doc := range []string{`<b onclick=x>t</b><!-- c --><form>f</form>`, `<a href="javascript:alert(1)" onclick=x style="x">l</a>`, `<script>s</script><iframe>i</iframe>`, `<p style="color:red" onclick=x>p</p>`} {
+				out, pm := San(fresh.P, doc)
+				c.Eval()
+				var sig, what string
+				if pm != "" {
+					sig, what = "panic", pm
+				} else if ctor == "strict" {
+					sig, what = judgeStrict(out)
+				} else {
+					sig, what = judgeUGC(fresh.V, doc, out)
+				}
+				if sig != "" {
+					cs := mkCase(fresh.S, []byte(doc))
+					cs.Extra = json.RawMessage(`"after-extension"`)
+					c.Violate("shared-instance|"+ctor, fmt.Sprintf("after the result of an earlier %s constructor call was extended, a new one is no longer safe: %s; input=%s output=%s", ctor, what, run.Q(doc), run.Q(out)), cs)
+					c.Outcome("violation|shared-instance")
+				} else {
+					c.Outcome(ctor + "|fresh-instance-unaffected")
+				}
+			}
+		}
+	}
 	if c.Shard == 0 {
 		c.Notes["hostile_elements"] = float64(len(hostileElements))
 		c.Notes["hostile_attributes"] = float64(len(hostileAttrs))
@@ -339,6 +371,23 @@ func replayC04(raw json.RawMessage) (bool, string) {
 	out, pm := San(b.P, string(in))
 	if pm != "" {
 		return true, "panic: " + pm
+	}
+	if string(cs.Extra) == `"after-extension"` {
+		// fresh process: extend one result of the constructor, then judge a new one
+		first := spec.Build(spec.Spec{Base: cs.Spec.Base})
+		for _, call := range []C{els("b", "script", "form"), attrsGlob([]string{"onclick", "style", "href"}, ""), {Op: "AllowComments"}, attrsOn([]string{"href"}, "", "a"),
+			{Op: "AllowURLSchemes", Names: []string{"javascript", "data"}}, opt("AllowUnsafe", true), {Op: "AllowElementsContent", Names: []string{"script", "style", "iframe"}}} {
+			spec.Apply(first, call)
+		}
+		fresh := build(cs.Spec)
+		out2, _ := San(fresh.P, string(in))
+		var sig, what string
+		if cs.Spec.Base == "strict" {
+			sig, what = judgeStrict(out2)
+		} else {
+			sig, what = judgeUGC(fresh.V, string(in), out2)
+		}
+		return sig != "", what + " output=" + run.Q(out2)
 	}
 	if len(cs.Extra) > 0 {
 		sig, what := judgeConform(b.V, string(in), out)
